@@ -688,7 +688,7 @@ func checkME(c *vsched.RunCtx, prop string) {
 	if c.Replay != nil {
 		if c.Replay.Harness == "sched:me-timers" {
 			runMEDrivers(c, false)
-		} else if c.Replay.Harness == "me-pairs" {
+		} else if strings.HasPrefix(c.Replay.Harness, "me-pairs") {
 			runMEPairs(c, false)
 		} else {
 			replayME(c, prop)
@@ -883,7 +883,7 @@ func runMEDrivers(c *vsched.RunCtx, race bool) {
 
 func checkMERaces(c *vsched.RunCtx) {
 	runMEDrivers(c, true)
-	if c.Replay == nil || c.Replay.Harness == "me-pairs" {
+	if c.Replay == nil || strings.HasPrefix(c.Replay.Harness, "me-pairs") {
 		runMEPairs(c, true)
 	}
 	c.Assume("multiendpoint driver: two due timers, SetEndpoints, SetEndpointAvailability and a Current() reader as concurrent threads on the real multiEndpoint")
